@@ -5,8 +5,18 @@ package main
 import (
 	"fmt"
 	"go/types"
+	"sort"
 	"strings"
 )
+
+func sortedStructNames(P *Prog) []string {
+	var ns []string
+	for n := range P.structTypes {
+		ns = append(ns, n)
+	}
+	sort.Strings(ns)
+	return ns
+}
 
 func (x *Exec) freshName(base string) string {
 	x.fresh++
@@ -43,6 +53,40 @@ func (x *Exec) mkVal(term string, t types.Type) Val {
 	return v
 }
 
+// Interior pointers to a struct-typed field of a repository struct (e.g. &w.header) are given an
+// SMT encoding so that they can be returned, stored and loaded: the pointer to field #f of the
+// object at root r of container heap C is the negative number -(64*r + site), where site numbers
+// the (C, f) pair. Real objects have positive roots and nil is 0.
+type interiorSite struct {
+	container types.Type // struct type holding the field
+	field     int
+	id        int
+}
+
+func (x *Exec) sitesFor(elem types.Type) []interiorSite {
+	key := elem.String()
+	if s, ok := x.P.sites[key]; ok {
+		return s
+	}
+	var out []interiorSite
+	id := 0
+	for _, name := range sortedStructNames(x.P) {
+		st := x.P.structTypes[name]
+		us := st.Underlying().(*types.Struct)
+		for i := 0; i < us.NumFields(); i++ {
+			if types.Identical(us.Field(i).Type(), elem) {
+				id++
+				out = append(out, interiorSite{st, i, id})
+			}
+		}
+	}
+	if x.P.sites == nil {
+		x.P.sites = map[string][]interiorSite{}
+	}
+	x.P.sites[key] = out
+	return out
+}
+
 func (x *Exec) ptrFromRoot(root string, elem types.Type) *Pointer {
 	ss := x.P.ss
 	if a, ok := elem.Underlying().(*types.Array); ok {
@@ -53,7 +97,11 @@ func (x *Exec) ptrFromRoot(root string, elem types.Type) *Pointer {
 			return &Pointer{Heap: "", Elem: elem, Root: root}
 		}
 	}
-	return &Pointer{Heap: ss.heapKey(elem, false), Elem: elem, Root: root}
+	p := &Pointer{Heap: ss.heapKey(elem, false), Elem: elem, Root: root}
+	if ss.kindOf(elem) == KStruct && len(x.sitesFor(elem)) > 0 && !isLit(root) {
+		p.Enc = true
+	}
+	return p
 }
 
 // termOf gives the SMT term of a value for storing in memory / passing to SMT.
@@ -63,6 +111,15 @@ func (x *Exec) termOf(v Val) string {
 		p := v.Ptr
 		if p == nil {
 			return v.T
+		}
+		if p.Local == nil && !p.Rows && len(p.Path) == 1 && !p.Enc {
+			// pointer to a struct-typed field of a heap object: use the interior-site encoding
+			ft := pathType(p.Elem, p.Path)
+			for _, s := range x.sitesFor(ft) {
+				if types.Identical(s.container, p.Elem) && s.field == p.Path[0] {
+					return sx("-", "0", sx("+", sx("*", "64", p.Root), fmt.Sprint(s.id)))
+				}
+			}
 		}
 		if p.Local != nil || len(p.Path) > 0 || (p.Rows && p.Idx != "0") {
 			bail("interior or local pointer needs an SMT encoding (type %v)", v.Typ)
@@ -102,7 +159,26 @@ func (x *Exec) cellTerm(st *State, p *Pointer) string {
 	if p.Rows {
 		return sx("select", sx("select", h, p.Root), p.Idx)
 	}
+	if p.Enc {
+		return x.encCell(p, func(key, sort string) string { return st.heap(key, sort) })
+	}
 	return sx("select", h, p.Root)
+}
+
+// encCell: the object a possibly interior-encoded pointer designates.
+func (x *Exec) encCell(p *Pointer, heapOf func(key, sort string) string) string {
+	ss := x.P.ss
+	h := heapOf(p.Heap, ss.heapSort(p.Elem, false))
+	term := sx("select", h, p.Root)
+	neg := sx("-", "0", p.Root)
+	for _, s := range x.sitesFor(p.Elem) {
+		ck := ss.heapKey(s.container, false)
+		ch := heapOf(ck, ss.heapSort(s.container, false))
+		cs := ss.structSort(s.container)
+		field := sx(cs.Fields[s.field].Name, sx("select", ch, sx("div", neg, "64")))
+		term = ite(and(sx("<", p.Root, "0"), sx("=", sx("mod", neg, "64"), fmt.Sprint(s.id))), field, term)
+	}
+	return term
 }
 
 // pathType returns the type reached by following path from t.
@@ -172,6 +248,10 @@ func (x *Exec) store(st *State, p *Pointer, v Val) {
 	}
 	if p.Heap == "" {
 		bail("store through opaque pointer to %v", p.Elem)
+	}
+	if p.Enc {
+		// a pointer that may designate a field of another object: stores are only modelled for real objects
+		bail("store through a pointer that may be interior (%v)", p.Elem)
 	}
 	nv := x.termOf(v)
 	hs := ss.heapSort(p.Elem, p.Rows)
